@@ -1,18 +1,25 @@
 #!/bin/bash
-# run_seeded.sh [tier] : apply every seeded change in /verif/seeded to /repo in turn, run the
-# property's check, restore /repo. A seeded change must be reported (exit 1 with a VIOLATION
-# line); prints one line per change and exits non-zero if any was missed.
-TIER=${1:-quick}
+# run_seeded.sh [tier] [name-filter] : apply every seeded change in /verif/seeded to /repo in turn,
+# run the check of its property (meta.json: property, or check_properties when the change is
+# reported by other properties' checks), restore /repo. A seeded change must be reported (exit 1
+# with a VIOLATION line) by at least one of them; prints one line per change and exits non-zero if
+# any was missed.
+TIER=${1:-quick}; FILTER=${2:-}
 cd /repo && git diff --quiet || { echo "/repo not clean"; exit 2; }
 mkdir -p /tmp/seeded-logs
 MISSED=0
 for d in /verif/seeded/*/; do
-  name=$(basename $d); P=${name%%-*}
+  name=$(basename $d)
+  [ -n "$FILTER" ] && [[ "$name" != *$FILTER* ]] && continue
+  PROPS=$(python3 -c "import json,sys; m=json.load(open('$d/meta.json')); print(' '.join(m.get('check_properties',[m['property']])))")
   git -C /repo apply "$d/patch.diff" || { echo "$name: patch does not apply"; MISSED=1; continue; }
-  ( cd /verif && timeout 7200 bin/check $P --tier $TIER > /tmp/seeded-logs/$name.$TIER.log 2>&1 ); RC=$?
+  CAUGHT=""
+  for P in $PROPS; do
+    ( cd /verif && timeout 7200 bin/check $P --tier $TIER > /tmp/seeded-logs/$name.$P.log 2>&1 ); RC=$?
+    if [ $RC -eq 1 ]; then CAUGHT="$CAUGHT $P: $(grep -m1 'violation in' /tmp/seeded-logs/$name.$P.log | cut -c1-150)"; else CAUGHT="$CAUGHT $P: exit=$RC;"; fi
+  done
   git -C /repo checkout -- .
-  V=$(grep -m1 "violation in" /tmp/seeded-logs/$name.$TIER.log | cut -c1-160)
-  if [ $RC -eq 1 ]; then echo "$name: caught ($TIER) $V"; else echo "$name: NOT caught, exit=$RC"; MISSED=1; fi
+  if [[ "$CAUGHT" == *"violation in"* ]]; then echo "$name: caught ($TIER)$CAUGHT"; else echo "$name: NOT caught$CAUGHT"; MISSED=1; fi
 done
 rm -rf /tmp/seeded-logs
 exit $MISSED
